@@ -75,6 +75,7 @@ class Contract:
         self.ghost_init = None
         self.captures = []    # (ghost name, local name, expr, ctype)
         self.assert_attrs = {}
+        self.captures_before = []
         self.uses = []        # other contract files whose ghost declarations this one refers to
         self.markers = []     # (line, id)
         if not os.path.exists(path):
@@ -123,6 +124,12 @@ class Contract:
                     for item in re.findall(r'(?:(\w+)=([^@\s]+)@)?(\w+):([\w ]+?)(?=\s+\w+[:=]|\s*$)', rest):
                         gname, expr, local, ctype = item
                         self.captures.append((gname or 'cap_' + local, local, expr or local, ctype.strip()))
+                    cur = None
+                elif kind == 'capture-before':
+                    # R21b: ghost assignments placed immediately before the first statement that starts with the anchor text
+                    anchor, _, items = rest.partition('::')
+                    for gname, expr, ctype in re.findall(r'(\w+)=(\S+?):([\w ]+?)(?=\s+\w+=|\s*$)', items.strip()):
+                        self.captures_before.append((anchor.strip(), gname, expr, ctype.strip()))
                     cur = None
                 elif kind == 'ghost-init':
                     cur = ('ghost-init', no + 1, [])
@@ -397,6 +404,7 @@ def extract_function(proj, fi, functable, real='double', srcrel=None, select=Non
         elif p.kind == 'str_out':
             str_names[p.name] = 'out'
     b = tr.rule_strings(b, str_names)
+    b = tr.rule_copy(b)
     b = tr.rule_casts(b)
     b = tr.rule_names(b)
     b = tr.rule_statics(b)
@@ -459,11 +467,23 @@ def splice_captures(body, contract, report):
         semi = X.Translator._stmt_end(body, m.end())
         body = body[:semi + 1] + ' %s = %s;' % (gname, expr) + body[semi + 1:]
         report.hit('R21.ghost_capture')
+    anchors = {}
+    for anchor, gname, expr, ctype in contract.captures_before:
+        anchors.setdefault(anchor, []).append('%s = %s;' % (gname, expr))
+    for anchor, stmts in anchors.items():
+        pat = re.compile(r'(?<=[;{}])(\s*)' + r'\s*'.join(re.escape(t) for t in anchor.split()))
+        m = pat.search(body)
+        if not m:
+            raise ExtractError('capture-before: no statement starts with %r' % anchor)
+        ins = m.start() + len(m.group(1))
+        body = body[:ins] + '{ ' + ' '.join(stmts) + ' } ' + body[ins:]
+        report.hit('R21b.ghost_capture_before', len(stmts))
     return body
 
 
 def capture_decls(contract):
-    return '\n'.join('%s %s;' % (ctype, gname) for gname, local, expr, ctype in contract.captures)
+    return '\n'.join(['%s %s;' % (ctype, gname) for gname, local, expr, ctype in contract.captures] +
+                     ['%s %s;' % (ctype, gname) for anchor, gname, expr, ctype in contract.captures_before])
 
 
 def splice_loops(body, contract):
